@@ -138,4 +138,54 @@ def callsite_values(repo, fn, param, prefixes=("xonsh",)):
     return out
 
 
+# ---------------------------------------------------------------- roles instead of names
+# Locals are identified by what they hold (their definition / their use), never by their spelling:
+# renaming a local is a behaviour-preserving edit.
+
+
+def returned_names(fn):
+    """local names that occur as (an element of) a returned value"""
+    out = set()
+    for n in walk_local(fn):
+        if isinstance(n, ast.Return) and n.value is not None:
+            vs = n.value.elts if isinstance(n.value, ast.Tuple) else [n.value]
+            out |= {v.id for v in vs if isinstance(v, ast.Name)}
+    return out
+
+
+def names_defined_by(fn, pred, defs=None):
+    """local names with at least one definition whose bound expression satisfies pred(expr)"""
+    defs = defs if defs is not None else df.all_defs(fn)
+    out = set()
+    for name, ds in defs.items():
+        for d in ds:
+            v = d.value
+            if d.kind == "unpack" and isinstance(v, (ast.Tuple, ast.List)) and d.index is not None and d.index < len(v.elts):
+                v = v.elts[d.index]
+            if v is not None and d.kind in ("assign", "unpack", "walrus", "with", "for") and pred(v):
+                out.add(name)
+    return out
+
+
+def names_bound_to_call(fn, callee_pred, defs=None):
+    """local names assigned from a call whose dotted name satisfies callee_pred (str -> bool)"""
+    return names_defined_by(fn, lambda v: isinstance(v, ast.Call) and callee_pred(call_name(v) or unparse(v.func)), defs)
+
+
+def names_bound_to_text(fn, texts, defs=None):
+    """local names assigned from an expression whose source text is one of ``texts`` (aliases of an attribute, e.g. `env = XSH.env`)"""
+    texts = {texts} if isinstance(texts, str) else set(texts)
+    return names_defined_by(fn, lambda v: unparse(v) in texts, defs)
+
+
+def param_name(fn, index, skip_self=True):
+    """name of the index-th parameter (parameters are API and not renamed silently, but read them from the signature anyway)"""
+    args = fn.args.posonlyargs + fn.args.args
+    if skip_self and args and args[0].arg in ("self", "cls"):
+        args = args[1:]
+    if index >= len(args):
+        raise AnchorMissing(f"{fn.name}: no parameter #{index}")
+    return args[index].arg
+
+
 __all__ = [n for n in dir() if not n.startswith("_")]
